@@ -22,7 +22,10 @@ BUDGET = {'quick': 200, 'thorough': 2400}
 MISMATCH_BUDGET = 0.0
 RULE = ('histories of 2-14 add_block/set_block calls (append, overwrite first/middle/last, non-contiguous ids) with, per '
         'channel, none / trapezoid / extended-trapezoid / raster gradient from {0,+A,-A,+B} to {0,+A,-A,+B}, with and without '
-        'delay, aligned or not to the block end (about 45% of the attempted blocks violate a rule). Oracles on the '
+        'delay, aligned or not to the block end (about 45% of the attempted blocks violate a rule); 18% of the calls pass the very '
+        'events of an earlier call again; interleaved: write+read of the own file followed by overwriting blocks with their own '
+        'events, assignment of another system, flip_grad_axis; 12% of the histories are walks over a small alphabet of '
+        'extended gradients (ids recur) that are written, read and re-stored block by block. Oracles on the '
         'implementation: (a) an independent exact evaluation of the four rules against the decoded neighbours must agree '
         'with accept/reject of every call (soundness and completeness, sign-symmetric by construction), (b) the final '
         'block table must be continuous per channel. Every history also runs on the extracted Coq model (outcome class and '
@@ -174,8 +177,70 @@ def continuity_of_table(seq):
     return None
 
 
+def gen_walk_history(rng):
+    """a walk over a small alphabet of extended gradients between a few levels (so that library ids recur and first-seen
+    events follow re-used ones), written and read back; the loaded object must then accept every block's own events again"""
+    import pypulseq as pp
+    system = H.mk_system(rng, rng.choice([0, 0, 1]))
+    pool = H.Pool(rng, system)
+    tw = H.Twin(system)
+    kinds, diffs, edges, added = [], [], {}, {}
+    chans = rng.sample('xyz', rng.choice([1, 1, 2]))
+    levels = [0.0] + rng.sample(LEVELS[1:], rng.choice([1, 2]))
+    block_len = rng.choice([6e-4, 8e-4, 1e-3])
+    alphabet = {}
+    at = {ch: 0.0 for ch in chans}
+    for _ in range(rng.randint(4, 10)):
+        evs = []
+        for ch in chans:
+            to = rng.choice(levels)
+            if at[ch] == 0.0 and to == 0.0 and rng.random() < 0.5:
+                continue
+            key = (ch, at[ch], to)
+            if key not in alphabet:
+                alphabet[key] = pool.ext(ch, at[ch], to, dur=block_len)
+            evs.append(alphabet[key])
+            at[ch] = to
+        for ch in chans:
+            if not any(e.channel == ch for e in evs):
+                at[ch] = 0.0
+        evs.append(pp.make_delay(block_len))
+        i = tw.on.next_free_block_ID
+        exp = expected(tw.off, i, evs, edges)
+        rec = tw.add([strip_ids(e) for e in evs])
+        got = None if rec['outcome'][0] == 'ok' else rec['outcome'][1]
+        kinds.append('add' + (':' + got if got else ''))
+        if (exp is None) != (got is None):
+            diffs.append({'op': len(kinds) - 1, 'kind': 'add', 'index': i, 'expected': exp or 'accept', 'got': got or 'accept',
+                          'events': [brief(e) for e in evs]})
+        if got is None:
+            edges[i] = edges_of_events(evs)
+            added[i] = [strip_ids(e) for e in evs]
+        else:
+            break
+    if added:
+        tw.write_read(do_read=True)
+        kinds.append('read')
+        for b in list(tw.on.block_events.keys()):
+            if b not in added:
+                continue
+            evs = [strip_ids(e) for e in added[b]]
+            if expected(tw.off, b, evs, edges) is not None:
+                continue
+            rec = tw.set(b, evs)
+            got = None if rec['outcome'][0] == 'ok' else rec['outcome'][1]
+            kinds.append('reset-after-read' + (':' + got if got else ''))
+            if got is not None:
+                diffs.append({'op': len(kinds) - 1, 'kind': 'set-after-read', 'index': b, 'expected': 'accept', 'got': got,
+                              'events': [brief(e) for e in evs]})
+    kinds.append('walk')
+    return tw, kinds, diffs
+
+
 def gen_history(rng, tier):
     import pypulseq as pp
+    if rng.random() < 0.12:
+        return gen_walk_history(rng)
     n_ops = rng.randint(2, 14)
     system = H.mk_system(rng, rng.choice([0, 0, 1]))
     pool = H.Pool(rng, system)
@@ -183,16 +248,40 @@ def gen_history(rng, tier):
     prev_last = [0.0, 0.0, 0.0]
     kinds, diffs = [], []
     edges = {}            # block id -> channel -> (first, last) of the gradient the caller added there
+    added = {}            # block id -> the events the caller stored there (kept in step with flips)
+    seen = []             # every accepted event list, as passed (re-used later: same library ids recur, also after a flip)
     for _ in range(n_ops):
         ids = list(tw.on.block_events.keys())
         r = rng.random()
         special = rng.random()
-        if ids and special < 0.05:
+        if ids and special < 0.07:
             # write + read of the sequence's own file: the store (and the edge values the reader reconstructs) replace
             # what was built; the history continues on the loaded object
             tw.write_read(do_read=True)
             kinds.append('read')
+            # the loaded object must accept again what the caller had stored: overwrite up to four blocks with their own
+            # events (only where the block and its neighbours carry no raster gradient, whose last value the reader can only
+            # extrapolate); the reader's reconstruction of first/last is what the neighbour checks now read
+            ids_r = list(tw.on.block_events.keys())
+            cand = [b for b in ids_r if b in added and all(no_raster(added.get(ids_r[q]))
+                                                          for q in range(max(0, ids_r.index(b) - 1), min(len(ids_r), ids_r.index(b) + 2)))]
+            rng.shuffle(cand)
+            for b in cand[:4]:
+                evs = [strip_ids(e) for e in added[b]]
+                try:
+                    exp = expected(tw.off, b, evs, edges)
+                except Exception as e:  # noqa: BLE001
+                    exp = 'oracle-error:%r' % (e,)
+                if exp is not None:
+                    continue
+                rec = tw.set(b, evs)
+                got = None if rec['outcome'][0] == 'ok' else rec['outcome'][1]
+                kinds.append('reset-after-read' + (':' + got if got else ''))
+                if got is not None:
+                    diffs.append({'op': len(kinds) - 1, 'kind': 'set-after-read', 'index': b, 'expected': 'accept', 'got': got,
+                                  'events': [brief(e) for e in evs]})
             edges = {}
+            added = {}
             ids2 = list(tw.on.block_events.keys())
             if ids2:
                 ev = tw.on.block_events[ids2[-1]]
@@ -200,7 +289,7 @@ def gen_history(rng, tier):
                 prev_last = [float(gl.data[ev[2 + c]][5]) if ev[2 + c] and gl.type.get(ev[2 + c]) == 'g' and len(gl.data[ev[2 + c]]) > 5
                              else 0.0 for c in range(3)]
             continue
-        if ids and special < 0.08:
+        if ids and special < 0.10:
             # another system object is assigned: the slew-step threshold must follow it
             other = H.mk_system(rng, 1)
             for s_ in (tw.on, tw.off):
@@ -208,7 +297,7 @@ def gen_history(rng, tier):
             tw._record('system', 'load ' + sm.core_tokens(tw.on), [('ok', None), ('ok', None)])
             kinds.append('system')
             continue
-        if ids and special < 0.11:
+        if ids and special < 0.13:
             # flip one axis of everything stored so far (library rows rewritten in place); what the caller "added" is
             # now the negated events
             ax = rng.choice('xyz')
@@ -222,12 +311,14 @@ def gen_history(rng, tier):
                 continue
             tw._record('flip', 'load ' + sm.core_tokens(tw.on), res)
             kinds.append('flip')
-            if True:
-                for b in edges:
-                    if ax in edges[b]:
-                        f, l = edges[b][ax]
-                        edges[b][ax] = (-f, -l)
-                prev_last['xyz'.index(ax)] = -prev_last['xyz'.index(ax)]
+            for b in edges:
+                if ax in edges[b]:
+                    f, l = edges[b][ax]
+                    edges[b][ax] = (-f, -l)
+            for b in added:
+                added[b] = [pp.scale_grad(e, -1.0) if getattr(e, 'type', None) in ('trap', 'grad') and e.channel == ax else e
+                            for e in added[b]]
+            prev_last['xyz'.index(ax)] = -prev_last['xyz'.index(ax)]
             continue
         if r < 0.62 or not ids:
             evs = gen_block(rng, pool, prev_last)
@@ -238,7 +329,9 @@ def gen_history(rng, tier):
             p = ids.index(i)
             # continue from the block before i
             pl = [0.0, 0.0, 0.0]
-            if p > 0:
+            if p > 0 and ids[p - 1] in edges:
+                pl = [float(edges[ids[p - 1]].get(ch, (0, 0))[1]) for ch in 'xyz']
+            elif p > 0:
                 ev = tw.on.block_events[ids[p - 1]]
                 gl = tw.on.grad_library
                 pl = [float(gl.data[ev[2 + c]][5]) if ev[2 + c] and gl.type[ev[2 + c]] == 'g' else 0.0 for c in range(3)]
@@ -248,6 +341,16 @@ def gen_history(rng, tier):
             i = tw.on.next_free_block_ID + rng.choice([1, 2, 5])
             evs = gen_block(rng, pool, prev_last)
             kind = 'setgap'
+        if seen and rng.random() < 0.18:
+            # the very events of an earlier call again (preferably ones that continue from where the sequence stands):
+            # their library entries are found again, also when a flip has rewritten those entries in the meantime
+            want = pl if kind == 'set' else prev_last
+            fit = [e_ for e_ in seen if all(float(edges_of_events(e_).get(ch, (0, 0))[0]) == want[ci]
+                                            for ci, ch in enumerate('xyz'))]
+            evs = [strip_ids(e) for e in rng.choice(fit if fit and rng.random() < 0.8 else seen)]
+            kind_tag = 'reuse'
+        else:
+            kind_tag = None
         if rng.random() < 0.2:
             evs = grads_by_id(tw, evs)
         try:
@@ -263,14 +366,37 @@ def gen_history(rng, tier):
             if (exp is None) != (got is None):
                 diffs.append({'op': len(kinds) - 1, 'kind': kind, 'index': i, 'expected': exp or 'accept', 'got': got or 'accept',
                               'events': [brief(e) for e in evs]})
+        if kind_tag:
+            kinds.append('reused-events')
         if got is None:
             edges[i] = edges_of_events(evs)
+            added[i] = [strip_ids(e) for e in evs]
+            seen.append(added[i])
             last_id = list(tw.on.block_events.keys())[-1]
             if last_id == i:
-                ev = tw.on.block_events[i]
-                gl = tw.on.grad_library
-                prev_last = [float(gl.data[ev[2 + c]][5]) if ev[2 + c] and gl.type[ev[2 + c]] == 'g' else 0.0 for c in range(3)]
+                # where the sequence stands is what the caller added (not what the store says)
+                prev_last = [float(edges[i].get(ch, (0, 0))[1]) for ch in 'xyz']
     return tw, kinds, diffs
+
+
+def strip_ids(e):
+    e2 = copy.deepcopy(e)
+    for a in ('id', 'shape_IDs'):
+        if hasattr(e2, a):
+            delattr(e2, a)
+    return e2
+
+
+def no_raster(evs):
+    """no raster-sampled (regularly timed) arbitrary gradient among the events (None: nothing known -> False)"""
+    if evs is None:
+        return False
+    for e in evs:
+        if getattr(e, 'type', None) == 'grad':
+            tt = np.asarray(e.tt) / H.RASTER - 0.5
+            if len(tt) > 3 and np.allclose(tt, np.arange(len(tt)), atol=1e-6):
+                return False
+    return True
 
 
 def grads_by_id(tw, evs):
@@ -328,7 +454,7 @@ def run_one(ctx, rng, n, tag):
 
 
 def run(ctx):
-    n_hist = {'quick': 350, 'thorough': 6000}[ctx.tier]
+    n_hist = {'quick': 700, 'thorough': 8000}[ctx.tier]
     rng = ctx.rng('histories')
     batch = []
     for n in range(n_hist):
